@@ -255,7 +255,7 @@ def run(ctx):
                        "backlogs that drain to empty and refill; non-trivial = a send completed and something was observed on the receive side; distinct by script text")
     ctx.assumptions += ls.ASSUME + ["sync.Pool is modelled as 'Get returns any pooled node or a fresh one' (Model/Queue); the network model carries the abstract backlog list, "
                                     "justified by queue_refines_fifo"]
-    ls.regen_stages(ctx, pipe=False, fork=False, sources=False, text=True)
+    ls.regen_stages(ctx, pipe=False, fork=False, sources=False, text=True, cfg=True)
     ctx.prove()
     if ctx.thorough():
         ctx.leanchecker()
